@@ -2,6 +2,7 @@ package gen
 
 import (
 	"fmt"
+	"math/bits"
 	"strings"
 
 	"pgregory.net/rapid"
@@ -89,30 +90,46 @@ type G struct {
 	fn        *fnCtx
 	ctr       int
 	inKey     bool
+	inIdx     bool
+	bigOK     bool
 	generics  bool
 	funcField bool
 }
 
-var uniformIdx = func() []int {
-	s := make([]int, 4096)
-	for i := range s {
-		s[i] = i
-	}
-	return s
-}()
-
-// Uniform draws an index in [0, n) uniformly. (rapid.IntRange is heavily
-// biased towards small values — about 40 % of IntRange(0,99) draws are below
-// 10 — which would skew every choice of the generators towards alternative 0;
-// SampledFrom is uniform and still shrinks towards index 0.)
+// Uniform draws an index in [0, n) uniformly. rapid.IntRange and
+// rapid.SampledFrom are both biased towards small values (the number of random
+// bits is itself drawn from a geometric distribution: a "20 %" choice built on
+// them fires more than half of the time, and late alternatives of a long list
+// are starved); rapid.Bool is a single fair bit, so the index is assembled from
+// fair bits with rejection. It still shrinks towards index 0 (all bits false).
 func Uniform(t *rapid.T, label string, n int) int {
 	if n <= 1 {
 		return 0
 	}
-	if n > len(uniformIdx) {
-		return rapid.IntRange(0, n-1).Draw(t, label)
+	bl := bits.Len(uint(n - 1))
+	v := 0
+	for try := 0; try < 8; try++ {
+		v = 0
+		for i := 0; i < bl; i++ {
+			if fairBit.Draw(t, label) {
+				v |= 1 << (bl - 1 - i)
+			}
+		}
+		if v < n {
+			return v
+		}
 	}
-	return rapid.SampledFrom(uniformIdx[:n]).Draw(t, label)
+	return v % n
+}
+
+var fairBit = rapid.Bool()
+
+// Range draws an integer in [lo, hi] uniformly (see Uniform).
+func Range(t *rapid.T, label string, lo, hi int) int {
+	if hi-lo >= 1<<20 {
+		return rapid.IntRange(lo, hi).Draw(t, label)
+	}
+	return lo + Uniform(t, label, hi-lo+1)
 }
 
 // Chance is true with probability pct/100.
@@ -300,7 +317,7 @@ func (g *G) litInt(w int) uint64 {
 	return b[g.pick("litidx", len(b))]
 }
 
-var strPool = []string{"", "a", "b", "ab", "hello", "x y", "héllo", "0", "abcabc", "tab\\there", "日本"}
+var strPool = []string{"", "a", "b", "ab", "hello", "x y", "héllo", "0", "abcabc", "tab\\there", "日本", "%", "100%", "%s%d", "%%", "(*", "*)"}
 
 func (g *G) litOf(t *Ty, typed bool) string {
 	switch t.K {
@@ -464,6 +481,17 @@ func (g *G) prologue(sc *scope) []string {
 			out = append(out, fmt.Sprintf("%s := make([]byte, %d)", name, ln))
 			g.declare(sc, &Var{Name: name, T: SliceOf(TU8), MinLen: ln})
 		case 7:
+			if g.chance("protable", 35) {
+				// a 256-element table: the only slices a byte-typed index can address directly
+				et := g.intTy("protablety")
+				g.label("table-256")
+				out = append(out, fmt.Sprintf("%s := make([]%s, 256)", name, et.Go()))
+				mul := []int{1, 3, 7}[g.pick("protablemul", 3)]
+				conv := map[Kind]string{KU64: "%s", KU32: "uint32(%s)", KU8: "byte(%s)"}[et.K]
+				out = append(out, fmt.Sprintf("for %si := uint64(0); %si < 256; %si++ {\n\t%s[%si] = %s\n}", name, name, name, name, name, fmt.Sprintf(conv, fmt.Sprintf("%si*%d + 1", name, mul))))
+				g.declare(sc, &Var{Name: name, T: SliceOf(et), MinLen: 256, Used: true, Big: true})
+				break
+			}
 			t := SliceOf(g.intTy("prosl"))
 			ln := 1 + g.pick("prosllen", 4)
 			out = append(out, fmt.Sprintf("var %s %s = make(%s, %d)", name, t.Go(), t.Go(), ln))
@@ -550,7 +578,7 @@ func (g *G) freshName(sc *scope, label string, avoid ...string) string {
 
 func (g *G) freshName1(sc *scope, label string) string {
 	// mostly fresh names; sometimes (in an inner scope) shadow an outer one
-	if !g.cfg.NoShadowing && sc.parent != nil && g.chance(label+".shadow", 20) {
+	if !g.cfg.NoShadowing && sc.parent != nil && g.chance(label+".shadow", 35) {
 		outer := sc.parent.all()
 		var cands []*Var
 		for _, v := range outer {
@@ -599,6 +627,11 @@ func (g *G) isGlobalName(n string) bool {
 func (g *G) varsOf(sc *scope, pred func(*Var) bool) []*Var {
 	var out []*Var
 	for _, v := range sc.all() {
+		// a 256-element table is only indexed (and measured): it is never aliased, passed on,
+		// ranged over or used as a loop bound, so that loop trip counts stay small
+		if v.Big && !g.bigOK {
+			continue
+		}
 		if pred(v) {
 			out = append(out, v)
 		}
@@ -642,11 +675,14 @@ func (g *G) nonConst(sc *scope, t *Ty, depth int) string {
 		alts = append(alts, func() string { g.label("deref"); return "*" + use(v) })
 	}
 	// slice index
-	for _, v := range g.varsOf(sc, func(v *Var) bool { return v.T.K == KSlice && v.MinLen > 0 && v.T.Elem.Same(t) }) {
+	g.bigOK = true
+	idxVars := g.varsOf(sc, func(v *Var) bool { return v.T.K == KSlice && v.MinLen > 0 && v.T.Elem.Same(t) })
+	g.bigOK = false
+	for _, v := range idxVars {
 		v := v
 		alts = append(alts, func() string {
 			g.label("slice-index")
-			return fmt.Sprintf("%s[%d]", use(v), g.pick("idx", v.MinLen))
+			return fmt.Sprintf("%s[%s]", use(v), g.idxExpr(sc, "idx", v.MinLen))
 		})
 	}
 	// map lookup (not inside a map key: keeps generation well-founded)
@@ -754,6 +790,49 @@ func (g *G) exprTyped(sc *scope, t *Ty, depth int, typed bool) string {
 	panic("expr")
 }
 
+// idxExpr returns an index expression whose value is in [0, n) (n >= 1). Besides literals it
+// produces the operand kinds goose has to convert: uint64 / uint32 / byte typed arithmetic reduced
+// modulo n, an explicit widening conversion, and — on tables of at least 256 elements — a bare
+// narrowing conversion byte(e) of a wider value (seeded change C01-3: forms × operand kinds).
+func (g *G) idxExpr(sc *scope, label string, n int) string {
+	if n <= 1 {
+		return "0"
+	}
+	if g.inIdx || g.inKey || g.chance(label+".lit", 45) {
+		return fmt.Sprintf("%d", g.pick(label, n))
+	}
+	g.inIdx = true
+	defer func() { g.inIdx = false }()
+	forms := []string{"u64", "u32", "widen"}
+	if n <= 255 {
+		forms = append(forms, "u8")
+	}
+	if n >= 256 {
+		forms = append(forms, "narrow", "narrow", "narrow")
+	}
+	switch forms[g.pick(label+".form", len(forms))] {
+	case "u64":
+		g.label("index-dynamic")
+		return fmt.Sprintf("%s %% %d", paren(g.nonConstOr(sc, TU64, 1)), n)
+	case "u32":
+		g.label("index-dynamic-u32")
+		return fmt.Sprintf("%s %% %d", paren(g.nonConstOr(sc, TU32, 1)), n)
+	case "u8":
+		g.label("index-dynamic-u8")
+		return fmt.Sprintf("%s %% %d", paren(g.nonConstOr(sc, TU8, 1)), n)
+	case "widen":
+		g.label("index-dynamic-widened")
+		return fmt.Sprintf("uint64(%s) %% %d", g.nonConstOr(sc, TU32, 1), n)
+	default:
+		from := []*Ty{TU64, TU64, TU32}[g.pick(label+".from", 3)]
+		if e := g.nonConst(sc, from, 1); e != "" {
+			g.label("index-narrowing-conversion")
+			return []string{"byte", "uint8"}[g.pick(label+".sp", 2)] + "(" + e + ")"
+		}
+		return fmt.Sprintf("%d", g.pick(label, n))
+	}
+}
+
 var arithOps = []string{"+", "-", "*", "/", "%", "&", "|", "^", "<<", ">>"}
 
 func (g *G) intExpr(sc *scope, t *Ty, depth int, typed bool) string {
@@ -810,9 +889,17 @@ func (g *G) intExpr(sc *scope, t *Ty, depth int, typed bool) string {
 		}
 		r := g.intExpr(sc, t, depth-1, true)
 		return fmt.Sprintf("%s %s %s", paren(l), op, paren(r))
-	case 4: // conversion from another width (operand non-constant)
+	case 4: // conversion from another width (operand non-constant), possibly through a third one
 		from := g.intTy("convfrom")
-		if from.Same(t) {
+		// narrower widths than both ends: the "sandwich" T(M(e)) is the only chain in which the
+		// intermediate conversion changes the value (seeded change C01-4)
+		var narrower []*Ty
+		for _, m := range []*Ty{TU32, TU8} {
+			if m.Width() < t.Width() && m.Width() < from.Width() {
+				narrower = append(narrower, m)
+			}
+		}
+		if from.Same(t) && len(narrower) == 0 {
 			break
 		}
 		inner := g.nonConst(sc, from, depth-1)
@@ -823,9 +910,23 @@ func (g *G) intExpr(sc *scope, t *Ty, depth int, typed bool) string {
 			inner = fmt.Sprintf("%s + %s", inner, g.intExpr(sc, from, depth-2, true))
 		}
 		g.label("conversion")
+		if from.Same(t) || g.chance("convchain", 40) {
+			mid := g.intTy("convmid")
+			if len(narrower) > 0 && (from.Same(t) || g.chance("convsandwich", 60)) {
+				mid = narrower[g.pick("convnarrow", len(narrower))]
+				g.label("conversion-sandwich")
+			}
+			if !mid.Same(t) {
+				g.label("conversion-chain")
+				inner = map[Kind]string{KU64: "uint64", KU32: "uint32", KU8: []string{"byte", "uint8"}[g.pick("convmidsp", 2)]}[mid.K] + "(" + inner + ")"
+			}
+		}
 		if t.K == KU8 {
-			// goose converts only on the spelling uint8(…) but accepts only the spelling byte
-			// as the type of a variable/initialiser: byte(uint8(e)) has both
+			// the expression may initialise a variable, whose type goose accepts only under the
+			// spelling byte: the outermost conversion is byte(…), alone or around uint8(…)
+			if g.chance("convbytesp", 50) {
+				return "byte(" + inner + ")"
+			}
 			return "byte(uint8(" + inner + "))"
 		}
 		name := map[Kind]string{KU64: "uint64", KU32: "uint32"}[t.K]
@@ -1047,7 +1148,7 @@ func (g *G) ptrExpr(sc *scope, t *Ty, depth int) string {
 			v := v
 			alts = append(alts, func() string {
 				g.label("slice-element-pointer")
-				return fmt.Sprintf("&%s[%d]", use(v), g.pick("elemptridx", v.MinLen))
+				return fmt.Sprintf("&%s[%s]", use(v), g.idxExpr(sc, "elemptridx", v.MinLen))
 			})
 		}
 		if len(alts) > 0 {
@@ -1087,6 +1188,26 @@ func (g *G) sliceExpr(sc *scope, t *Ty, depth int, want int) (string, int) {
 		}
 		g.label("slice-literal")
 		return t.Go() + "{" + g.expr(sc, t.Elem, 0) + "}", 1
+	}
+	if want == 0 && !g.inIdx && !g.inKey && g.chance("makedyn", 20) {
+		// dynamic length: any unsigned type, including a bare narrowing conversion (length < 256)
+		g.inIdx = true
+		defer func() { g.inIdx = false }()
+		g.label("make-slice-dynamic-length")
+		switch g.pick("makedynform", 4) {
+		case 0:
+			return fmt.Sprintf("make(%s, %s %% 6)", t.Go(), paren(g.nonConstOr(sc, TU64, 1))), 0
+		case 1:
+			return fmt.Sprintf("make(%s, %s %% 6)", t.Go(), paren(g.nonConstOr(sc, TU32, 1))), 0
+		case 2:
+			return fmt.Sprintf("make(%s, %s %% 6)", t.Go(), paren(g.nonConstOr(sc, TU8, 1))), 0
+		default:
+			from := []*Ty{TU64, TU32}[g.pick("makedynfrom", 2)]
+			if e := g.nonConst(sc, from, 1); e != "" {
+				g.label("make-slice-narrowed-length")
+				return fmt.Sprintf("make(%s, byte(%s) %% 32)", t.Go(), e), 0
+			}
+		}
 	}
 	n := want + g.pick("makelen", 5)
 	g.label("make-slice")
